@@ -1121,6 +1121,7 @@ func runC02(o *out, thorough bool, r *rng, _ []string) map[string]interface{} {
 		o.run(202, []string{fHex(data), fNums(ts[r.intn(4)], r.intn(5))}, true)
 		o.count("kind:repeated-types")
 	}
+	lookupCases(o, r, 300) // failing callbacks; an attribute with a nil Value put into the list by the caller
 	_ = bytes.Equal
 	return ex
 }
